@@ -85,6 +85,9 @@ def main():
         print("--- with patch:\n" + out1[-1500:] + "\n--- without:\n" + out2[-1500:])
         raise SystemExit(1)
     outvar = var if rnd == 1 else chr(ord(var) + 2 * (rnd - 1))
+    if "--letters" in sys.argv:
+        # explicit target letters for A and B (round 7 was stored as N/O, round 8 as P/Q)
+        outvar = sys.argv[sys.argv.index("--letters") + 1][ord(var) - ord("A")]
     dst = "/verif/seeded/%s%s" % (pid, outvar)
     os.makedirs(dst, exist_ok=True)
     shutil.copy(src + "/patch.diff", dst + "/patch.diff")
